@@ -15,7 +15,7 @@ VERIF = os.path.dirname(os.path.dirname(os.path.abspath(__file__)))
 TRUSTED = [
     "Coq 8.16.1 kernel (coqc; vm_compute used for closed examples; no native_compute)",
     "hand-written Gallina model coq/*.v of cmd/*.go and internal/** (tied to the code by the correspondence run of this check)",
-    "tools/srcfacts: Go AST + regexp/syntax translator that regenerates coq/GoRegex.v from /repo on every run",
+    "tools/srcfacts: Go AST + regexp/syntax translator that regenerates coq/SrcRegex.v from /repo on every run; coq/Bridge.v proves every source pattern equivalent to the model's (verified checker RegexEquiv.v, run by vm_compute)",
     "extraction: ExtrOcamlBasic only (bool, option, unit, list, prod, sumbool mapped to OCaml's); no Extract Constant; modeldrv/driver.ml parsing/printing glue",
     "harness: Python readers (zlib, hashlib, struct), output parsers, generators, oracles",
     "modelled not verified: Go's strings/fmt/bufio/strconv/hex/binary/filepath/sort/regexp/os, crypto/sha1 (Sha1.v, validated against hashlib on every object), compress/zlib (outside the model), cobra flag parsing, the Go runtime",
